@@ -167,31 +167,51 @@ def _shape(i):
     return (i[0], len(i[1]), len(i[2]))
 
 
+def _path(B, lab):
+    """lab and the blocks reached from it through jump-only blocks (until a block that is not jump-only, or a cycle)"""
+    out = []
+    while lab in B and lab not in out:
+        out.append(lab)
+        if len(B[lab]) == 1 and _uncond(B[lab]) is not None:
+            lab = _uncond(B[lab])
+        else:
+            break
+    return out
+
+
+def _chain_search(B, ainsts, cur, total, seen, depth=0):
+    """blocks merged behind `cur` so that the lengths and the shape of the terminator fit (small backtracking search)"""
+    if not B[cur] or not ainsts:
+        return []
+    if total == len(ainsts) and _shape(B[cur][-1]) == _shape(ainsts[-1]):
+        return []
+    last = B[cur][-1]
+    if last[0] not in JUMPS or depth > len(B):
+        return None
+    labs = [a[1] for a in last[1] if a[0] == "lab"]
+    if not labs:
+        return None
+    paths = [_path(B, l) for l in labs]
+    common = [x for x in paths[0] if all(x in p for p in paths[1:])]
+    for nxt in common:
+        if nxt in seen:
+            continue
+        t2 = total + len(B[nxt]) - 1
+        if t2 > len(ainsts):
+            continue
+        r = _chain_search(B, ainsts, nxt, t2, seen | {nxt}, depth + 1)
+        if r is not None:
+            return [nxt] + r
+    return None
+
+
 def cert_chain(before, after, num):
     B = dict(before["blocks"])
     ch = {}
     for lab, ainsts in after["blocks"]:
         if lab not in B:
             return None
-        cur, total, chain = lab, len(B[lab]), []
-        seen = {lab}
-        while B[cur] and ainsts and not (total == len(ainsts) and _shape(B[cur][-1]) == _shape(ainsts[-1])):
-            last = B[cur][-1]
-            if last[0] not in JUMPS:
-                break
-            tg = {a[1] for a in last[1] if a[0] == "lab"}
-            if len(tg) != 1 or not (tg <= set(B)):
-                tg = {_resolve(B, a[1]) for a in last[1] if a[0] == "lab"}
-            if len(tg) != 1 or None in tg:
-                break
-            nxt = tg.pop()
-            if nxt in seen or total > len(ainsts) + 1:
-                break
-            seen.add(nxt)
-            total += len(B[nxt]) - 1
-            chain.append(nxt)
-            cur = nxt
-        ch[lab] = chain
+        ch[lab] = _chain_search(B, ainsts, lab, len(B[lab]), {lab}) or []
     rows = []
     for lab, _ in before["blocks"]:
         rows.append("[" + "; ".join(f"{num.lab[x]}%N" for x in ch.get(lab, [])) + "]")
